@@ -88,6 +88,12 @@ Definition e_output (o : output) : list bytes :=
   end.
 Definition newly_closed (before after : list conn) : list nat :=
   flat_map (fun c => if (negb (cn_open c) && conn_open before (cn_id c))%bool then [cn_id c] else []) after.
+(* what the driver reports are the connections the PROXY closed; the one its own close event names is not among them *)
+Definition closed_by_proxy (ev : event) (before after : list conn) : list nat :=
+  match ev with
+  | EvTcpClose c => filter (fun n => negb (Nat.eqb n c)) (newly_closed before after)
+  | _ => newly_closed before after
+  end.
 
 Definition ms : Z := 1000000.
 (* the instant of event e (ns): one millisecond per event, plus everything the driver slept before it *)
@@ -101,7 +107,7 @@ Fixpoint run_events (c : cfg) (ue : list (bytes * Z)) (ws : list (nat * Z)) (e :
       match proxy_step current_fixes c (time_of ws e) (branch_of e) st ev with
       | Ok (st', outs) =>
           e_list e_output (filter (visible ue) outs)
-          ++ e_list (fun n => [e_nat n]) (newly_closed (st_conns st) (st_conns st'))
+          ++ e_list (fun n => [e_nat n]) (closed_by_proxy ev (st_conns st) (st_conns st'))
           ++ run_events c ue ws (S e) st' r
       | Err => [s2b "err"]
       | Panic => [s2b "panic"]
